@@ -65,21 +65,31 @@ def compared_constants(f: FuncInfo, param: str) -> Tuple[Set, List[ast.AST]]:
 
 
 def validated_alias(pkg, res, f: FuncInfo, param: str):
-    """Members of the alias used in `argcheck.is_in(param, get_args(Alias) / Alias.__args__ / literal)`."""
+    """Members of the alias used in `argcheck.is_in(param, get_args(Alias) / Alias.__args__ / literal)`; the collection may be
+    passed positionally or as `collection=` and may be a named temporary."""
+    from sa.inline import Inliner
+    inl = None
     for c in own_calls(f.node):
-        if call_name(c) == "argcheck.is_in" and c.args and isinstance(c.args[0], ast.Name) and c.args[0].id == param:
-            if len(c.args) > 1:
-                coll = c.args[1]
-                if isinstance(coll, ast.Call) and call_name(coll) in ("get_args", "typing.get_args") and coll.args:
-                    m = literal_members(pkg, res, f.module, coll.args[0])
-                    if m is not None:
-                        return m, c
-                if isinstance(coll, (ast.Tuple, ast.List, ast.Set)) and all(isinstance(x, ast.Constant) for x in coll.elts):
-                    return [x.value for x in coll.elts], c
-                if isinstance(coll, ast.Attribute) and coll.attr == "__args__":
-                    m = literal_members(pkg, res, f.module, coll.value)
-                    if m is not None:
-                        return m, c
+        if call_name(c) == "argcheck.is_in" and (c.args or c.keywords):
+            val = c.args[0] if c.args else next((k.value for k in c.keywords if k.arg == "val"), None)
+            if not (isinstance(val, ast.Name) and val.id == param):
+                continue
+            coll = c.args[1] if len(c.args) > 1 else next((k.value for k in c.keywords if k.arg == "collection"), None)
+            if coll is None:
+                continue
+            if isinstance(coll, ast.Name):
+                inl = inl or Inliner(f.node)
+                coll = inl.expand(coll)
+            if isinstance(coll, ast.Call) and call_name(coll) in ("get_args", "typing.get_args") and coll.args:
+                m = literal_members(pkg, res, f.module, coll.args[0])
+                if m is not None:
+                    return m, c
+            if isinstance(coll, (ast.Tuple, ast.List, ast.Set)) and all(isinstance(x, ast.Constant) for x in coll.elts):
+                return [x.value for x in coll.elts], c
+            if isinstance(coll, ast.Attribute) and coll.attr == "__args__":
+                m = literal_members(pkg, res, f.module, coll.value)
+                if m is not None:
+                    return m, c
     return None, None
 
 
